@@ -29,10 +29,10 @@ def h1_extverify():
     insts = [{"label": "stub_all", "defines": ["SHAPE_STUB=1", "PRES=511"]}]
     for bit, n in names.items():
         insts.append({"label": "stub_no_" + n, "defines": ["SHAPE_STUB=1", "PRES=%d" % (511 & ~bit)]})
-    for n in (1, 2, 3):
+    for n in (1, 2):
         insts.append({"label": "real_n%d" % n, "defines": ["SHAPE_STUB=0", "NLINKS=%d" % n, "PRES=511"], "unwind": n + 3})
     insts.append({"label": "real_n2_no_status", "defines": ["SHAPE_STUB=0", "NLINKS=2", "PRES=%d" % (511 & ~2)], "unwind": 5})
-    th = insts + [{"label": "real_n%d" % n, "defines": ["SHAPE_STUB=0", "NLINKS=%d" % n, "PRES=511"], "unwind": n + 3} for n in (4, 5)]
+    th = insts + [{"label": "real_n%d" % n, "defines": ["SHAPE_STUB=0", "NLINKS=%d" % n, "PRES=511"], "unwind": n + 3} for n in (3, 4, 5, 6, 8)]
     return {
         "name": "h1_extverify", "src": "h1_extverify.c",
         "env": ["ctx", "hash_model", "list_wrap", "fmt_stub"],
@@ -41,7 +41,7 @@ def h1_extverify():
         "functions": ["KSI_ExtendResp_verifyWithRequest", "KSI_convertExtenderStatusCode", "KSI_CalendarHashChain_getPublicationTime", "KSI_CalendarHashChain_getAggregationTime",
                       "KSI_CalendarHashChain_calculateAggregationTime", "calculateCalendarAggregationTime", "KSI_Integer_equals", "KSI_Integer_equalsUInt"],
         "bound": "typed reply / request objects; presence of request, status, both ids, chain, the chain's and the request's two times concrete per instance (all present, each one "
-                 "missing); shape computation stubbed (symbolic status and 64-bit result) or real on calendar chains of 1..3 links (thorough 1..5) with symbolic directions; symbolic: "
+                 "missing); shape computation stubbed (symbolic status and 64-bit result) or real on calendar chains of 1..2 links (thorough 1..6 and 8) with symbolic directions; symbolic: "
                  "64-bit status, ids and all four times",
         "instances": insts,
         "thorough": {"instances": th, "timeout": 1200},
@@ -73,8 +73,8 @@ def h4_surgery():
     def inst(mode, n, cal, fail=-1):
         d = {"label": "m%d_n%d_cal%d" % (mode, n, cal) + ("_fail%d" % fail if fail >= 0 else ""), "defines": ["MODE=%d" % mode, "NCH=%d" % n, "HAS_CAL=%d" % cal, "CONSTRUCT_FAIL_AT=%d" % fail]}
         return d
-    q = [inst(0, 3, 1), inst(0, 3, 0), inst(1, 3, 1), inst(2, 3, 1), inst(2, 2, 0), inst(0, 1, 1), inst(0, 0, 0), inst(0, 3, 1, 0), inst(0, 2, 0, 0), inst(2, 2, 1, 1)]
-    t = q + [inst(0, 4, 1), inst(0, 4, 0), inst(1, 4, 1), inst(2, 4, 1), inst(2, 4, 0), inst(0, 5, 1), inst(2, 5, 1)]
+    q = [inst(0, 3, 1), inst(0, 3, 0), inst(1, 3, 1), inst(2, 2, 0), inst(0, 1, 1), inst(0, 0, 0), inst(0, 3, 1, 0), inst(0, 2, 0, 0), inst(2, 2, 1, 1)]
+    t = q + [inst(2, 3, 1), inst(0, 4, 1), inst(0, 4, 0), inst(1, 4, 1), inst(2, 4, 1), inst(2, 4, 0), inst(0, 5, 1), inst(2, 5, 1), inst(0, 6, 1), inst(1, 6, 0), inst(2, 6, 1)]
     return {
         "name": "h4_surgery", "src": "h4_surgery.c",
         "env": ["ctx", "hash_model", "list_wrap", "fmt_stub"],
@@ -83,7 +83,7 @@ def h4_surgery():
         "restrict_fp": ["KSI_Signature_replacePublicationRecord.function_pointer_call.1/removeCalAuthAndPublication"],
         "functions": ["replaceCalendarChain", "removeCalAuthAndPublication", "KSI_SignatureBuilder_applyCalendarHashChain", "KSI_Signature_replacePublicationRecord",
                       "KSI_TLV_replaceNestedTlv", "KSI_TLV_appendNestedTlv", "KSI_TLV_getNestedList", "KSI_SignatureBuilder_open"],
-        "bound": "signature element with 0..3 children (thorough up to 5) whose 13-bit tags are all symbolic, with / without calendar chain; symbolic presence of an old publication "
+        "bound": "signature element with 0..3 children (thorough up to 6) whose 13-bit tags are all symbolic, with / without calendar chain; symbolic presence of an old publication "
                  "record / calendar authentication record object; KSI_TlvTemplate_construct stubbed (succeeds, or the first / second call fails, per instance)",
         "instances": q,
         "thorough": {"instances": t, "timeout": 1500},
@@ -109,8 +109,8 @@ def plan():
     return {
         "property": "C08",
         "outside": "the transports, MAC verification of the reply (C06), request / reply serialization and parsing (C09/C10), internal verification of the extended signature "
-                   "(C01/C02: input hash = aggregation root, times, publication record) - here a gate with a symbolic verdict; calendar chains longer than 3 (thorough 5) links; signature "
-                   "elements with more than 3 (thorough 5) children; KSI_Signature_clone / KSI_TLV_clone (the builder works on a clone: shown as 'opened from the source signature', the clone "
+                   "(C01/C02: input hash = aggregation root, times, publication record) - here a gate with a symbolic verdict; calendar chains longer than 3 (thorough 8; compatibility check 4) links; signature "
+                   "elements with more than 3 (thorough 6) children; KSI_Signature_clone / KSI_TLV_clone (the builder works on a clone: shown as 'opened from the source signature', the clone "
                    "function itself is C11's subject)",
         "assumptions": ["callee stubs return an arbitrary status and, on KSI_OK, set their out-parameter",
                         "representation invariant of a parsed signature: its element has a 0x802 child exactly when the object has a calendar chain, and at most one (template: single, optional)",
@@ -120,7 +120,7 @@ def plan():
             "level_text": "Bounded symbolic execution (CBMC) of the real types.c / hashchain.c / signature.c / signature_builder.c / net_async.c / tlv.c / list.c code. (H1) "
                           "KSI_ExtendResp_verifyWithRequest: KSI_OK implies request present, status zero (absent = 0), 64-bit ids present and equal, chain present, requested publication time "
                           "equal, aggregation time equal and shape-derived time equal; a matching reply with status 0 is accepted; non-zero status -> KSI_SERVICE_* error - for all 64-bit values, "
-                          "each optional member present / absent, shape computation stubbed and real (chains of 1..3 links, thorough 5). (H2) KSI_CalendarHashChain_verifyCompatibilityTo == "
+                          "each optional member present / absent, shape computation stubbed and real (chains of 1..2 links, thorough up to 8). (H2) KSI_CalendarHashChain_verifyCompatibilityTo == "
                           "(same aggregation time with publication-time fallback, same input hash, identical sequence of right-link imprints) for all chains of 0..3 x 0..3 links (thorough 4), all "
                           "directions and imprints. (H3) blocking extendTo / extend (with, without publication record) and asynchronous createExtendedSignature with callees stubbed: for ALL callee "
                           "outcomes success implies every gate (send, perform, MAC-gated response, verifyWithRequest, chain fetch, clone of the source, compatibility with the old chain, apply, close, "
